@@ -226,11 +226,40 @@ type c13PanicSite struct {
 
 func c13Panics(c *core.Ctx, g *c13Graph, sf *c13SpecFields) {
 	nFuncs, nSites := 0, 0
+	// sites are attributed to the owner of the function they stand in (see c13Graph.owner): a
+	// panicking block moved into a same-package helper keeps its obligation
+	byOwner := map[*c13Node][]c13PanicSite{}
+	var owners []*c13Node
 	for _, n := range g.reachedFuncs() {
 		sites := c13PanicSites(n, sf)
 		if len(sites) == 0 {
 			continue
 		}
+		// reviewed sites: the nearest function of the owner chain that has a table entry;
+		// spec-guarded and unreviewed sites: the last owner
+		chain := g.ownerChain(n)
+		last := chain[len(chain)-1]
+		tabled := last
+		for _, m := range chain {
+			if _, ok := c13PanicTable[m.name]; ok {
+				tabled = m
+				break
+			}
+		}
+		for _, s := range sites {
+			o := tabled
+			if s.pure {
+				o = last
+			}
+			if byOwner[o] == nil {
+				owners = append(owners, o)
+			}
+			byOwner[o] = append(byOwner[o], s)
+		}
+	}
+	sort.Slice(owners, func(i, j int) bool { return owners[i].name < owners[j].name })
+	for _, n := range owners {
+		sites := byOwner[n]
 		nFuncs++
 		nSites += len(sites)
 		// (a) pure spec-field guards: decided automatically, one obligation per field set
@@ -492,10 +521,13 @@ func c13CallsIn(c *core.Ctx, rel, recv, name string, wanted ...string) (map[stri
 		return nil, false
 	}
 	got := map[string]bool{}
-	for _, call := range calls(f.Body, true) {
-		for _, w := range wanted {
-			if calleeIs(f, call, w) {
-				got[w] = true
+	// the function together with the same-package helpers it calls
+	for _, h := range reach(f, 3) {
+		for _, call := range calls(h.Body, true) {
+			for _, w := range wanted {
+				if calleeIs(h, call, w) {
+					got[w] = true
+				}
 			}
 		}
 	}
@@ -524,16 +556,46 @@ func c13CheckGlobalFilterValidate(c *core.Ctx, g *c13Graph) (bool, string) {
 	before := structField(c, "pkg/object/globalfilter", "Spec", "BeforePipeline")
 	after := structField(c, "pkg/object/globalfilter", "Spec", "AfterPipeline")
 	seen := map[*types.Var]bool{}
-	for _, call := range calls(f.Body, true) {
-		if !calleeIs(f, call, "(*pkg/object/pipeline.Spec).Validate") {
-			continue
+	fieldOf := func(h *flow.Func, e ast.Expr) *types.Var {
+		e = ast.Unparen(e)
+		if u, ok := e.(*ast.UnaryExpr); ok && u.Op == token.AND {
+			e = ast.Unparen(u.X)
 		}
-		if sel, ok := ast.Unparen(call.Fun).(*ast.SelectorExpr); ok {
-			if inner, ok := ast.Unparen(sel.X).(*ast.SelectorExpr); ok {
-				if s := f.Info.Selections[inner]; s != nil {
-					if v, ok := s.Obj().(*types.Var); ok {
-						seen[v] = true
-					}
+		if inner, ok := e.(*ast.SelectorExpr); ok {
+			if s := h.Info.Selections[inner]; s != nil {
+				if v, ok := s.Obj().(*types.Var); ok {
+					return v
+				}
+			}
+		}
+		return nil
+	}
+	// direct: s.BeforePipeline.Validate(); through a helper: validate(&s.BeforePipeline) where the
+	// helper (same package) calls pipeline.Spec.Validate on its parameter
+	helpers := map[types.Object]bool{}
+	rs := reach(f, 3)
+	for _, h := range rs {
+		for _, call := range calls(h.Body, true) {
+			if !calleeIs(h, call, "(*pkg/object/pipeline.Spec).Validate") {
+				continue
+			}
+			if sel, ok := ast.Unparen(call.Fun).(*ast.SelectorExpr); ok {
+				if v := fieldOf(h, sel.X); v != nil {
+					seen[v] = true
+				} else if fd, ok := h.Node.(*ast.FuncDecl); ok && h != rs[0] {
+					helpers[h.Info.Defs[fd.Name]] = true
+				}
+			}
+		}
+	}
+	for _, h := range rs {
+		for _, call := range calls(h.Body, true) {
+			if !helpers[h.Callee(call)] {
+				continue
+			}
+			for _, a := range call.Args {
+				if v := fieldOf(h, a); v != nil {
+					seen[v] = true
 				}
 			}
 		}
